@@ -11,6 +11,7 @@ import (
 	"sort"
 	"strings"
 	"sync"
+	"sync/atomic"
 	"time"
 
 	"github.com/vipnode/vipnode/v2/ethnode"
@@ -49,17 +50,19 @@ type Settlement struct {
 
 // PoolWorld is a real pool + balance manager + payment service over a real store.
 type PoolWorld struct {
-	Cfg      PoolConfig
-	Store    store.Store // what the pool uses (possibly wrapped)
-	Raw      store.Store // the driver itself
-	BStore   *DepositStore
-	Pool     *pool.VipnodePool
-	Payment  *payment.PaymentService
-	Settles  []Settlement
-	SettleOK func(n int) bool // nil: always ok; n = ordinal of the settle attempt (0-based)
-	Hosts    map[string]*FakeHost
-	Step     int // logical step counter for ordering observations
-	nonceSeq int64
+	Cfg                           PoolConfig
+	Store                         store.Store // what the pool uses (possibly wrapped)
+	Raw                           store.Store // the driver itself
+	BStore                        *DepositStore
+	Pool                          *pool.VipnodePool
+	Payment                       *payment.PaymentService
+	Settles                       []Settlement
+	SettleOK                      func(n int) bool // nil: always ok; n = ordinal of the settle attempt (0-based)
+	OnSettle                      func()           // called when a settlement begins (e.g. the requester hangs up just then)
+	settleStarted, settleFinished atomic.Int64
+	Hosts                         map[string]*FakeHost
+	Step                          int // logical step counter for ordering observations
+	nonceSeq                      int64
 	// YieldPoints makes every BalanceStore call and the settlement a scheduling point.
 	YieldPoints bool
 }
@@ -205,6 +208,11 @@ func NewPoolWorld(cfg PoolConfig) *PoolWorld {
 		BalanceStore: w.BStore,
 		WithdrawMin:  cfg.WithdrawMin,
 		Settle: func(account store.Account, amount *big.Int, newBalance *big.Int) (string, error) {
+			w.settleStarted.Add(1)
+			defer w.settleFinished.Add(1)
+			if h := w.OnSettle; h != nil {
+				h()
+			}
 			if w.YieldPoints {
 				vsched.Yield("settle")
 			}
@@ -460,6 +468,31 @@ func (w *PoolWorld) Withdraw(wallet *Ident) error {
 	_, err := Watched("pool_withdraw by "+wallet.Name, func() (struct{}, error) {
 		return struct{}{}, w.Payment.Withdraw(context.Background(), sig, wallet.Wallet, n)
 	})
+	return err
+}
+
+// WithdrawGone performs a real signed pool_withdraw whose requester goes away (its context is
+// cancelled) at the moment the settlement begins, and returns once every settlement that was started
+// has finished, whether or not the request waited for it.
+func (w *PoolWorld) WithdrawGone(wallet *Ident) error {
+	n := w.nextNonce()
+	sig := wallet.SignWallet("pool_withdraw", n)
+	ctx, cancel := context.WithCancel(context.Background())
+	defer cancel()
+	w.OnSettle = cancel
+	_, err := Watched("pool_withdraw by "+wallet.Name, func() (struct{}, error) {
+		return struct{}{}, w.Payment.Withdraw(ctx, sig, wallet.Wallet, n)
+	})
+	if !vsched.Active() {
+		deadline := time.Now().Add(InvokeWatchdog)
+		for w.settleFinished.Load() != w.settleStarted.Load() {
+			if time.Now().After(deadline) {
+				panic("a settlement that was started never finished")
+			}
+			time.Sleep(50 * time.Microsecond)
+		}
+	}
+	w.OnSettle = nil
 	return err
 }
 
